@@ -103,7 +103,8 @@ def run_real(p):
     g = torch.Generator().manual_seed(p['dseed'])
     n, d = p['n'], p['d']
     X = torch.randn(n, d, generator=g)
-    Xv = torch.randn(max(20, n // 2), d, generator=g)
+    nv = p.get('nv') or max(20, n // 2)
+    Xv = torch.randn(nv, d, generator=g)
     if p['task'] == 'reg':
         f = lambda Z: torch.sin(2 * Z[:, :1]) + 0.5 * Z[:, 1:2]
         y, yv = f(X) + 0.1 * torch.randn(n, 1, generator=g), f(Xv)
@@ -113,6 +114,14 @@ def run_real(p):
         y, yv = f(X), f(Xv)
         y[:K] = torch.arange(K)
         yv[:K] = torch.arange(K)
+    if p.get('nv'):
+        # a large, ordered validation set whose last fifth is much noisier: any score assembled from parts of the validation set
+        # instead of from all of it differs visibly for metrics that are not plain row means (rmse, f1, auc)
+        tail = nv // 5
+        if p['task'] == 'reg':
+            yv[-tail:] += 2.0 * torch.randn(tail, 1, generator=g)
+        else:
+            yv[-tail:] = torch.randint(0, p['classes'], (tail,), generator=g)
     m = xRFM(rfm_params={'model': {'kernel': p['kernel'], 'bandwidth': 5.0, 'exponent': 1.0, 'diag': False, 'bandwidth_mode': 'constant'},
                          'fit': {'reg': 1e-3, 'iters': p['iters'], 'verbose': False, 'early_stop_rfm': False}},
              max_leaf_size=p['L'], device='cpu', verbose=False, random_state=p['dseed'], split_method=p['method'],
@@ -276,6 +285,12 @@ def gen_cases(run):
                           ctor_temp=r.choice([None, None, 0.5])))
         if i % 3 == 2:
             cases[-1].update(trees=3, cut_trees=True)
+    # validation sets beyond 10,000 rows, metrics that are not row means
+    for i, (task, metric) in enumerate([('reg', 'rmse'), ('class', 'f1'), ('class', 'auc')] if run.tier == 'quick' else
+                                       [('reg', 'rmse'), ('class', 'f1'), ('class', 'auc'), ('reg', 'rmse'), ('class', 'auc'), ('class', 'f1')]):
+        cases.append(dict(family='large-validation', task=task, metric=metric, cands=[0.0, 0.05, 0.3, 1.5], n=120, d=3, L=40, kernel='l2',
+                          iters=0, method='random', trees=1 + i % 2, classes=2, mode='zero_one', dseed=r.randint(0, 10 ** 6), ctor_temp=None,
+                          nv=[12500, 20500][i % 2]))
     return cases
 
 
@@ -292,8 +307,8 @@ def check(run):
     run.extra['exhaustive_part'] = 'family scripted-exhaustive'
     cases = gen_cases(run)
     if run.driver_ok:
-        real = [c for c in cases if c['family'] == 'real-fits']
-        rest = [c for c in cases if c['family'] != 'real-fits']
+        real = [c for c in cases if c['family'] in ('real-fits', 'large-validation')]
+        rest = [c for c in cases if c['family'] not in ('real-fits', 'large-validation')]
         jobs = [{'cases': [c]} for c in real] + [{'cases': c} for c in core.chunks(rest, 48)]
         run.absorb('c10', core.pmap(MOD, jobs))
 
